@@ -7,7 +7,7 @@ from .. import flow
 from ..engine import Ctx
 from ..model import dotted, unparse
 from . import common as C
-from .brokers import inmem_consume_rules, redis_txn_rules, terminal_callers_rule
+from .brokers import inmem_consume_rules, rabbit_rules, redis_txn_rules, terminal_callers_rule
 from .C02 import race
 from .shared import _mentions, await_map
 
@@ -27,6 +27,7 @@ def run(ctx: Ctx) -> None:
     inmem_consume_rules(ctx, rule_t="R-C14-TAKE", rule_a="R-C14-TAKE")
     redis_txn_rules(ctx, ops=(), rule_t="R-C14-TAKE", rule_a="R-C14-TAKE")
     redis_take_reply(ctx)
+    rabbit_rules(ctx, rule_t="R-C14-REDELIVER", rule_a="R-C14-REDELIVER", atomic_finding=False)
     finish_own(ctx)
     terminal_callers_rule(ctx, "R-C14-REDELIVER", ops=("reject", "requeue"))
     race(ctx, "R-C14-REDELIVER")
